@@ -82,17 +82,31 @@ package sigbits
 // prefixes / keyCnts. B = keyCnts are the boundaries, L = prefixes the prefix lengths.
 
 //@ func ShardByPrefix$1
+//@   regionctx
 //@   requires len(keys) == len(firstDiffs) + 1 && len(keys) < 1<<30 && maxSize >= 1
 //@   requires 0 <= s && s < e && int(e) <= len(keys)
 //@   requires forall i int :: 0 <= i && i < len(keys) ==> len(keys[i]) < 1<<27
 //@   requires len(keyCnts) >= 1 && keyCnts[len(keyCnts)-1] == s && len(prefixes) == len(keyCnts) - 1
 //@   requires regof(prefixes) != regof(keyCnts) && regof(prefixes) != regof(firstDiffs) && regof(keyCnts) != regof(firstDiffs)
+// c(i) = firstDiffs[i]>>3 is the common-prefix length of keys[i], keys[i+1]: at most len(keys[i]) and, keys being
+// strictly ascending, less than len(keys[i+1]); every c(i) inside the range exceeds the one at its left boundary
+//@   requires forall i int :: 0 <= i && i < len(firstDiffs) ==> 0 <= firstDiffs[i] && int(firstDiffs[i] >> 3) <= len(keys[i]) && int(firstDiffs[i] >> 3) < len(keys[i+1])
+//@   requires s > 0 ==> mn(firstDiffs, int(s), int(e) - 1, 0x7fffffff) > firstDiffs[int(s)-1] >> 3
 //@   ensures (regof(prefixes) == old(regof(prefixes)) || fresh(prefixes)) && (regof(keyCnts) == old(regof(keyCnts)) || fresh(keyCnts)) && regof(prefixes) != regof(keyCnts)
 //@   ensures len(keyCnts) > old(len(keyCnts)) && len(prefixes) == len(keyCnts) - 1
 //@   ensures forall k int :: 0 <= k && k < old(len(keyCnts)) ==> keyCnts[k] == old(keyCnts[k])
 //@   ensures forall k int :: 0 <= k && k < old(len(prefixes)) ==> prefixes[k] == old(prefixes[k])
 //@   ensures keyCnts[len(keyCnts)-1] == e
 //@   ensures forall j int :: old(len(keyCnts)) - 1 <= j && j < len(keyCnts) - 1 ==> s <= keyCnts[j] && keyCnts[j] < keyCnts[j+1] && keyCnts[j+1] <= e && keyCnts[j+1] - keyCnts[j] <= maxSize && prefixes[j] == mn(firstDiffs, int(keyCnts[j]), int(keyCnts[j+1]) - 1, int32(len(keys[int(keyCnts[j])])))
+// ordering facts: the first new prefix length exceeds c(s-1); the last one is at least the minimum over the range;
+// and ordOK (see speclib) extends from any earlier range [A, old len-1) over all new shards
+//@   ensures s > 0 ==> prefixes[old(len(keyCnts)) - 1] > firstDiffs[int(s)-1] >> 3
+//@   ensures prefixes[len(prefixes)-1] >= mn(firstDiffs, int(s), int(e) - 1, int32(len(keys[int(s)])))
+//@   ensures forall A int, LB int32 :: 0 <= A && A <= old(len(keyCnts)) - 1 && LB <= mn(firstDiffs, int(s), int(e) - 1, int32(len(keys[int(s)]))) && old(ordOK(firstDiffs, prefixes, keyCnts, A, len(keyCnts) - 1, LB)) && (A < old(len(keyCnts)) - 1 ==> s > 0 && old(prefixes[len(keyCnts)-2]) >= firstDiffs[int(s)-1] >> 3) ==> ordOK(firstDiffs, prefixes, keyCnts, A, len(keyCnts) - 1, LB)
+//@   assertret forall k int :: 0 <= k && k < old(len(keyCnts)) ==> keyCnts[k] == old(keyCnts[k])
+//@   assertret forall k int :: 0 <= k && k < old(len(prefixes)) ==> prefixes[k] == old(prefixes[k])
+//@   useret forall A int, LB int32 :: ord_extend(firstDiffs, old(prefixes), old(keyCnts), prefixes, keyCnts, A, old(len(keyCnts)) - 1, LB)
+//@   use mn_init(firstDiffs, int(s), int(e) - 1, int32(len(keys[int(s)])))
 //@   assigns prefixes, keyCnts, prefixes[*], keyCnts[*]
 //@   loop 1
 //@     invariant s <= i && i <= e - 1 && min == mn(firstDiffs, int(s), int(i), int32(len(keys[int(s)])))
@@ -100,6 +114,11 @@ package sigbits
 //@     invariant s <= i && i <= e - 1 && 0 <= len(endsAt) && len(endsAt) <= int(i) - int(s) && fresh(endsAt)
 //@     invariant forall k int :: 0 <= k && k < len(endsAt) ==> s < endsAt[k] && endsAt[k] <= i
 //@     invariant forall k int :: 0 <= k && k < len(endsAt) - 1 ==> endsAt[k] < endsAt[k+1]
+//@     invariant longest == mn(firstDiffs, int(s), int(i), int32(len(keys[int(s)])))
+//@     invariant forall k int :: 0 <= k && k < len(endsAt) ==> firstDiffs[int(endsAt[k])-1] >> 3 == longest
+//@     invariant forall k int :: 0 <= k && k < len(endsAt) ==> mn(firstDiffs, int(ite(k == 0, s, endsAt[ite(k == 0, 0, k-1)])), int(endsAt[k]) - 1, 0x7fffffff) > longest
+//@     invariant mn(firstDiffs, int(ite(len(endsAt) == 0, s, endsAt[ite(len(endsAt) == 0, 0, len(endsAt)-1)])), int(i), 0x7fffffff) > longest
+//@     use mn_init(firstDiffs, int(s), int(i), int32(len(keys[int(s)])))
 //@   loop 3
 //@     invariant 0 <= i && i <= len(endsAt) && len(endsAt) >= 1 && len(endsAt) <= int(e) - int(old(s)) && endsAt[len(endsAt)-1] == e && fresh(endsAt)
 //@     invariant (regof(prefixes) == old(regof(prefixes)) || fresh(prefixes)) && (regof(keyCnts) == old(regof(keyCnts)) || fresh(keyCnts)) && regof(prefixes) != regof(keyCnts) && regof(endsAt) != regof(prefixes) && regof(endsAt) != regof(keyCnts)
@@ -112,6 +131,16 @@ package sigbits
 //@     invariant forall k int :: 0 <= k && k < old(len(keyCnts)) ==> keyCnts[k] == old(keyCnts[k])
 //@     invariant forall k int :: 0 <= k && k < old(len(prefixes)) ==> prefixes[k] == old(prefixes[k])
 //@     invariant forall j int :: old(len(keyCnts)) - 1 <= j && j < len(keyCnts) - 1 ==> old(s) <= keyCnts[j] && keyCnts[j] < keyCnts[j+1] && keyCnts[j+1] <= s && keyCnts[j+1] - keyCnts[j] <= maxSize && prefixes[j] == mn(firstDiffs, int(keyCnts[j]), int(keyCnts[j+1]) - 1, int32(len(keys[int(keyCnts[j])])))
+//@     invariant longest == mn(firstDiffs, int(old(s)), int(e) - 1, int32(len(keys[int(old(s))])))
+//@     invariant forall k int :: 0 <= k && k < len(endsAt) - 1 ==> firstDiffs[int(endsAt[k])-1] >> 3 == longest
+//@     invariant forall k int :: 0 <= k && k < len(endsAt) ==> mn(firstDiffs, int(ite(k == 0, old(s), endsAt[ite(k == 0, 0, k-1)])), int(endsAt[k]) - 1, 0x7fffffff) > longest
+//@     invariant i > 0 ==> prefixes[len(prefixes)-1] >= longest
+//@     invariant i > 0 && old(s) > 0 ==> prefixes[old(len(keyCnts)) - 1] > firstDiffs[int(old(s))-1] >> 3
+//@     invariant forall A int, LB int32 :: 0 <= A && A <= old(len(keyCnts)) - 1 && LB <= longest && old(ordOK(firstDiffs, prefixes, keyCnts, A, len(keyCnts) - 1, LB)) && (A < old(len(keyCnts)) - 1 ==> old(s) > 0 && old(prefixes[len(keyCnts)-2]) >= firstDiffs[int(old(s))-1] >> 3) ==> ordOK(firstDiffs, prefixes, keyCnts, A, len(keyCnts) - 1, LB)
+//@     use mn_subrange(firstDiffs, int(old(s)), int(e) - 1, int32(len(keys[int(old(s))])), int(s), int(endsAt[i]) - 1, int32(len(keys[int(s)])))
+//@     use mn_lower(firstDiffs, int(old(s)), int(e) - 1, int32(len(keys[int(old(s))])), 0)
+//@     use mn_subrange(firstDiffs, int(old(s)), int(e) - 1, 0x7fffffff, int(old(s)), int(endsAt[i]) - 1, 0x7fffffff)
+//@     nounfold
 
 //@ func ShardByPrefix returns (L, B)
 //@   requires len(keys) >= 1 && len(keys) < 1<<30 && maxSize >= 1
